@@ -437,6 +437,67 @@ def _require_pure(fn, fname, allowed_globals):
             _fail(fname, n, '%s contains a nested scope' % fn.name)
 
 
+_IMMUTABLE_CALLS = ('threading.Lock', 'threading.RLock', 'frozenset', 're.compile', 'tuple', 'object')
+
+
+def _require_stateless(tree, fname, func_names):
+    """The listed module-level functions keep no memo: every module-level name
+    of their own file they touch is a function / class / import or is bound
+    once to an immutable value (constant, frozenset, compiled regex, lock);
+    they declare no global and store into nothing but their locals."""
+    defs, imports, immut, other = set(), set(), set(), {}
+    for n in tree.body:
+        if isinstance(n, (ast.FunctionDef, ast.ClassDef)):
+            defs.add(n.name)
+        elif isinstance(n, (ast.Import, ast.ImportFrom)):
+            for a in n.names:
+                imports.add((a.asname or a.name).split('.')[0])
+        elif isinstance(n, (ast.Assign, ast.AnnAssign, ast.AugAssign)):
+            targets = n.targets if isinstance(n, ast.Assign) else [n.target]
+            v = n.value
+            ok = isinstance(v, ast.Constant) or isinstance(v, ast.Attribute) \
+                or (isinstance(v, ast.Call) and ast.unparse(v.func) in _IMMUTABLE_CALLS) \
+                or (isinstance(v, ast.Call) and isinstance(v.func, ast.Attribute) and isinstance(v.func.value, ast.Name)
+                    and v.func.value.id in immut)
+            for t in targets:
+                for x in ast.walk(t):
+                    if isinstance(x, ast.Name):
+                        if ok and not isinstance(n, ast.AugAssign) and x.id not in other:
+                            immut.add(x.id)
+                        else:
+                            immut.discard(x.id)
+                            other[x.id] = n.lineno
+    fns = dict((n.name, n) for n in tree.body if isinstance(n, ast.FunctionDef))
+    for name in func_names:
+        if name not in fns:
+            raise Untranslatable('untranslatable: %s: function %s not found' % (fname, name))
+        fn = fns[name]
+        local = set(a.arg for a in fn.args.args + fn.args.kwonlyargs)
+        if fn.args.vararg:
+            local.add(fn.args.vararg.arg)
+        if fn.args.kwarg:
+            local.add(fn.args.kwarg.arg)
+        for n in ast.walk(fn):
+            if isinstance(n, (ast.Global, ast.Nonlocal)):
+                _fail(fname, n, '%s declares global state' % name)
+            if isinstance(n, ast.Name) and isinstance(n.ctx, ast.Store):
+                local.add(n.id)
+            if isinstance(n, ast.ExceptHandler) and n.name:
+                local.add(n.name)
+        for n in ast.walk(fn):
+            if isinstance(n, ast.Name) and n.id in other and n.id not in local:
+                _fail(fname, n, '%s uses the module-level mutable state `%s` (bound at line %d): source recovery on the '
+                      'request path must not keep a memo below the conversion cache' % (name, n.id, other[n.id]))
+            if isinstance(n, (ast.Subscript, ast.Attribute)) and isinstance(n.ctx, (ast.Store, ast.Del)):
+                base = n
+                while isinstance(base, (ast.Subscript, ast.Attribute)):
+                    base = base.value
+                if not (isinstance(base, ast.Name) and base.id in local):
+                    _fail(fname, n, '%s stores into non-local state (%s)' % (name, ast.unparse(n)[:50]))
+        for d in fn.decorator_list:
+            _fail(fname, d, '%s is decorated (%s): possible memoisation' % (name, ast.unparse(d)[:40]))
+
+
 def translate(repo):
     # ---- transpiler.py
     path = os.path.join(repo, 'malt', 'pyct', 'transpiler.py')
@@ -563,6 +624,10 @@ def translate(repo):
         vtree = ast.parse(f.read())
     ocls = _find_class(vtree, 'ConversionOptions', 'converter.py')
     _require_pure(_find_method(ocls, 'call_options', 'converter.py'), 'converter.py', {'ConversionOptions', 'Feature'})
+    # source recovery on the request path keeps no state of its own
+    for fn_, names in (('inspect_utils.py', ('getimmediatesource',)), ('parser.py', ('parse_entity', 'dedent_block', 'parse'))):
+        with open(os.path.join(repo, 'malt', 'pyct', fn_)) as f:
+            _require_stateless(ast.parse(f.read()), fn_, names)
     for m in ('as_tuple', '__hash__', '__eq__'):
         _require_pure(_find_method(ocls, m, 'converter.py'), 'converter.py', {'ConversionOptions', 'Feature', 'hash', 'isinstance'})
 
@@ -583,6 +648,9 @@ def translate(repo):
            '(* ConversionOptions.call_options / as_tuple / __hash__ / __eq__ and get_caching_key read no module-level',
            '   state and mutate nothing (checked by the translator): sub-keys are pure functions of the options *)',
            'Definition subkeys_pure : bool := true.',
+           '(* inspect_utils.getimmediatesource, parser.parse_entity / dedent_block / parse use no module-level mutable',
+           '   state (no memo below the conversion cache): what is transformed is the current source of the request *)',
+           'Definition source_recovery_stateless : bool := true.',
            '(* api.converted_call / _fall_back_unconverted: every _call_unconverted exit,',
            '   (guard depends on the calling context, writes the allowlist cache) *)',
            'Definition allowlist_exits : exits :=',
